@@ -175,7 +175,8 @@ def _thr(ctx, g, f, rule, var_text):
     return rule
 
 
-_OPTIONAL_HELPERS = {"_checkForTrailingComma", "_processPayload", "_prepareForPayloadConsumption", "_checkStringSize"}
+_OPTIONAL_HELPERS = {"_checkForTrailingComma", "_processPayload", "_prepareForPayloadConsumption", "_checkStringSize", "_extractPayload", "_processLength",
+                     "_checkPartialLengthSpecification"}
 
 
 def _wide(ctx, qual):
@@ -789,11 +790,14 @@ def _netstring(ctx):
         # The (loop-free) function is evaluated along its CFG for both outcomes of _payloadComplete() on concrete contents, and only its effects are
         # compared: the bytes appended to the payload, what stays in _remainingData, the size counter.  No statement shape is assumed (two branches
         # each doing the write, or a common tail driven by a count, are the same).
-        fx = _F(ctx, B, "NetstringReceiver._extractPayload")
+        # Judged on _consumePayload with its helpers expanded (the extraction may live in _extractPayload or be written out in place); the effects
+        # are read where the extraction is over: at the hand-over / the comma error when the payload completed, at the IncompleteNetstring otherwise.
+        fx = _wide(ctx, "NetstringReceiver._consumePayload")
         gx = ctx.cfg(fx)
-        qx = Q + "NetstringReceiver._extractPayload"
+        qx = Q + ("NetstringReceiver._extractPayload" if _has_method(ctx, "NetstringReceiver", "_extractPayload") else "NetstringReceiver._consumePayload | <payload extraction>")
         wr = calls_with(gx, "self._payload.write")
-        ctx.need(wr, "self._payload.write in _extractPayload")
+        ctx.need(wr, "self._payload.write in _consumePayload / _extractPayload")
+        over = sorted(set(_raises(gx, "IncompleteNetstring") + _raises(gx, "NetstringParseError") + call_nodes(gx, "self.stringReceived") + [gx.exit]))
         for complete, remaining, lab in ((True, b"0123456789abcd", "payload completes, 7 of 14 buffered bytes are missing"),
                                          (True, b"0123456", "payload completes exactly"), (False, b"0123", "payload still incomplete")):
             facts = {"self._payloadComplete()": complete, "self._expectedPayloadSize": 10, "self._currentPayloadSize": 3, "self._remainingData": remaining,
@@ -809,7 +813,8 @@ def _netstring(ctx):
                         written.append(peval(call.args[0], f_))
                     except NotConst:
                         written.append("<not determined>")
-            ends = facts_at(gx, facts, [gx.exit])
+            first_over = [n_ for n_ in over if not any(gx.path([m_], [n_], strict=True, edge_ok=lambda a_, b_, l_: l_ != "exc") for m_ in over if m_ != n_)] or over
+            ends = facts_at(gx, facts, first_over)
             rests = sorted({repr(e_.get("self._remainingData", "<not determined>")) for e_ in ends})
             sizes = sorted({repr(e_.get("self._currentPayloadSize", "<not determined>")) for e_ in ends})
             if "<not determined>" in written or any("not determined" in x for x in rests + sizes) or not ends:
@@ -822,50 +827,51 @@ def _netstring(ctx):
             ctx.check(sizes == [repr(want_size)], "netstring/payload-split", c0 + " | size", f"_currentPayloadSize afterwards is {sizes}, expected {want_size}")
     with ctx.section("netstring _consumePayload"):
         # ---- ns consumePayload
-        fcp = _F(ctx, B, "NetstringReceiver._consumePayload")
-        gcp = ctx.cfg(fcp)
+        # judged on _consumePayload with its helpers expanded, from the point where the arriving bytes have been added to the payload (whatever does
+        # that: _extractPayload or code written out in place), in two scenarios: the payload completes / one more byte is missing
         qcp = Q + "NetstringReceiver._consumePayload"
-        ext = call_nodes(gcp, "self._extractPayload")
-        proc = call_nodes(gcp, "self._processPayload", "self.stringReceived")
-        inc = _raises(gcp, "IncompleteNetstring")
-        ctx.need(ext and proc, "_extractPayload / _processPayload calls in _consumePayload")
-        after = [s for e in ext for s in succ_of(gcp, e, None)]
-        facts = {"self._currentPayloadSize": 5, "self._expectedPayloadSize": 5}
-        w = must_pass_under(gcp, facts, proc, srcs=after)
-        ctx.check(w is None, "netstring/complete-message-delivered", qcp + " | <payload complete>",
-                  "a netstring whose last byte (the comma) has arrived is not delivered until more data comes", witness=gcp.describe(w))
-        st_reset = self_assigns(gcp, "_state", lambda v: src(v) == "self._PARSING_LENGTH")
-        w = must_pass_under(gcp, facts, st_reset, srcs=after)
-        ctx.check(bool(st_reset) and w is None, "netstring/state-reset", qcp + " | <payload complete>",
-                  "the parser does not return to the length state after a complete payload", witness=gcp.describe(w))
-        R = reach_under(gcp, {"self._currentPayloadSize": 4, "self._expectedPayloadSize": 5}, srcs=after)
-        ctx.check(not (R & set(proc)) and bool(R & set(inc)), "netstring/incomplete-message-waits", qcp + " | <one byte missing>",
-                  "a netstring is delivered (or rejected) before its last byte arrived")
-        # the terminating comma and what is handed over, judged on what _consumePayload does once the payload is complete (helpers expanded or written
-        # out in place): a payload not followed by ',' raises NetstringParseError and delivers nothing; otherwise exactly the bytes before the comma
-        fw = _wide(ctx, "NetstringReceiver._consumePayload")
-        gw = ctx.cfg(fw)
-        extw = call_nodes(gw, "self._extractPayload")
-        afterw = [s_ for e in extw for s_ in succ_of(gw, e, None)]
+        gw = ctx.cfg(_wide(ctx, "NetstringReceiver._consumePayload"))
+        wrw = calls_with(gw, "self._payload.write")
         dl = calls_with(gw, "self.stringReceived")
+        proc = [n for n, _ in dl]
+        inc = _raises(gw, "IncompleteNetstring")
         rzw = _raises(gw, "NetstringParseError")
-        full = {"self._currentPayloadSize": 3, "self._expectedPayloadSize": 3}
-        if not afterw or not dl:
-            ctx.note("netstring/comma-checked, netstring/payload-without-comma: no stringReceived hand-over found in _consumePayload after _extractPayload; "
-                     "clauses left to netstring/reference-framing")
-        else:
-            Rb = reach_under(gw, dict(full, **{"self._payload.getvalue()": b"abc"}), srcs=afterw)
-            ctx.check(not (Rb & {n for n, _ in dl}) and bool(Rb & set(rzw)) and gw.exit not in Rb, "netstring/comma-checked", qcp + " | <payload not followed by a comma>",
+        ctx.need(wrw and proc, "payload write and stringReceived hand-over in _consumePayload (helpers expanded)")
+
+        def starts(scn):
+            out = []
+            for n_, _c in wrw:
+                for fa in facts_at(gw, scn, [n_]):
+                    ss = succ_of(gw, n_, None)
+                    if ss:
+                        out.append((ss, fa))
+            return out
+        done = starts({"self._payloadComplete()": True, "self._expectedPayloadSize": 3, "self._currentPayloadSize": 1, "self._remainingData": b"b,XY", "len(self._remainingData)": 4})
+        short = starts({"self._payloadComplete()": False, "self._expectedPayloadSize": 5, "self._currentPayloadSize": 1, "self._remainingData": b"bc", "len(self._remainingData)": 2})
+        st_reset = self_assigns(gw, "_state", lambda v: src(v) == "self._PARSING_LENGTH")
+        if not done or not short:
+            ctx.note("netstring/complete-message-delivered, netstring/incomplete-message-waits, netstring/comma-checked: the payload write of _consumePayload is not "
+                     "reached in the evaluated scenarios; clauses left to netstring/reference-framing and netstring/segmentation-invariant")
+        for ss, fa in done:
+            good = dict(fa, **{"self._payload.getvalue()": b"ab,"})
+            w = must_pass_under(gw, good, proc, srcs=ss)
+            ctx.check(w is None, "netstring/complete-message-delivered", qcp + " | <payload complete>",
+                      "a netstring whose last byte (the comma) has arrived is not delivered until more data comes", witness=gw.describe(w))
+            w = must_pass_under(gw, good, st_reset, srcs=ss)
+            ctx.check(bool(st_reset) and w is None, "netstring/state-reset", qcp + " | <payload complete>",
+                      "the parser does not return to the length state after a complete payload", witness=gw.describe(w))
+            bad = dict(fa, **{"self._payload.getvalue()": b"abc"})
+            Rb = reach_under(gw, bad, srcs=ss)
+            ctx.check(not (Rb & set(proc)) and bool(Rb & set(rzw)) and gw.exit not in Rb, "netstring/comma-checked", qcp + " | <payload not followed by a comma>",
                       "the payload is delivered without checking the terminating comma (or a missing comma is not a NetstringParseError)",
-                      witness=gw.describe(path_under(gw, dict(full, **{"self._payload.getvalue()": b"abc"}), [n for n, _ in dl], srcs=afterw)))
-            good = dict(full, **{"self._payload.getvalue()": b"ab,"})
-            Rg = reach_under(gw, good, srcs=afterw)
+                      witness=gw.describe(path_under(gw, bad, proc, srcs=ss)))
+            Rg = reach_under(gw, good, srcs=ss)
             ctx.check(not (Rg & set(rzw)), "netstring/comma-checked", qcp + " | <payload followed by a comma>", "a correctly terminated payload is refused")
             handed = []
             for n_, c_ in dl:
-                for fa in facts_at(gw, good, [n_], srcs=afterw):
+                for f2 in facts_at(gw, good, [n_], srcs=ss):
                     try:
-                        handed.append(peval(c_.args[0], fa) if c_.args else None)
+                        handed.append(peval(c_.args[0], f2) if c_.args else None)
                     except NotConst:
                         handed.append(NotConst)
             if any(v is NotConst for v in handed):
@@ -873,9 +879,13 @@ def _netstring(ctx):
             else:
                 ctx.check(handed == [b"ab"], "netstring/payload-without-comma", qcp + " | <hand-over>",
                           f"for the buffered payload b'ab,' stringReceived gets {handed!r}, not exactly the payload without the trailing comma")
+        for ss, fa in short:
+            R = reach_under(gw, fa, srcs=ss)
+            ctx.check(not (R & set(proc)) and bool(R & set(inc)), "netstring/incomplete-message-waits", qcp + " | <one byte missing>",
+                      "a netstring is delivered (or rejected) before its last byte arrived")
     with ctx.section("netstring _processLength"):
         # ---- ns processLength
-        fpl = _F(ctx, B, "NetstringReceiver._processLength")
+        fpl = _wide(ctx, "NetstringReceiver._consumeLength")       # _processLength expanded, or its code written out in place
         sets = [resolve_locals(fpl, x.value) for x in walk_local(fpl) if isinstance(x, ast.Assign) and src(x.targets[0]) == "self._expectedPayloadSize"]
         if not sets:
             ctx.note("netstring/expected-size: no assignment of _expectedPayloadSize recognised in _processLength; clause left to netstring/segmentation-invariant")
@@ -887,7 +897,7 @@ def _netstring(ctx):
                     val = peval(v, {src(calls_[0]): 41})
                 except NotConst:
                     val = None
-            ctx.check(val == 42, "netstring/expected-size", Q + "NetstringReceiver._processLength",
+            ctx.check(val == 42, "netstring/expected-size", Q + ("NetstringReceiver._processLength" if _has_method(ctx, "NetstringReceiver", "_processLength") else "NetstringReceiver._consumeLength | <length stored>"),
                       "the expected payload size is not 'announced length + 1' (payload and comma)" + (f": evaluates to {val} for an announced length of 41" if val is not None else ""))
     with ctx.section("netstring dataReceived"):
         # dataReceived: errors close, incomplete waits
@@ -1278,13 +1288,15 @@ def _reentrancy(ctx):
         cls = ctx.cls(B, "NetstringReceiver")
         from sa.source import methods as _methods
         helpers = {n for n, m in _methods(cls).items() if any(isinstance(c, ast.Call) and call_name(c) == "self.stringReceived" for c in walk_local(m))}
-        f = _F(ctx, B, "NetstringReceiver._consumePayload")
+        f = _wide(ctx, "NetstringReceiver._consumePayload")
         g = ctx.cfg(f)
         q = Q + "NetstringReceiver._consumePayload"
+        helpers -= _OPTIONAL_HELPERS | {"_consumePayload"}
         outs = call_nodes(g, "self.stringReceived", *[f"self.{h}" for h in sorted(helpers)])
         ctx.need(outs, "call-out (stringReceived, directly or through one helper) in _consumePayload")
         resets = self_assigns(g, "_state", lambda v: src(v) == "self._PARSING_LENGTH")
-        ext = call_nodes(g, "self._extractPayload")
+        # what takes the payload bytes out of the unconsumed data: the re-binding of _remainingData (in _extractPayload or written out in place)
+        ext = self_assigns(g, "_remainingData")
         for n in outs:
             c = ctx.construct(q, g.node(n).ast)
             w = g.must_precede(resets, [n])
@@ -1304,6 +1316,8 @@ def _stale_derived(ctx):
     for cls_name, meth in (("IntNStringReceiver", "dataReceived"), ("LineReceiver", "dataReceived"), ("LineOnlyReceiver", "dataReceived"),
                            ("NetstringReceiver", "dataReceived"), ("NetstringReceiver", "_extractPayload"), ("NetstringReceiver", "_processLength")):
         with ctx.section(f"stale derived values {cls_name}.{meth}"):
+            if meth in _OPTIONAL_HELPERS and not _has_method(ctx, cls_name, meth):
+                continue            # the helper was written out in its caller
             f = _F(ctx, B, f"{cls_name}.{meth}")
             g = ctx.cfg(f)
             q = Q + f"{cls_name}.{meth}"
